@@ -33,10 +33,14 @@ class EcoreUtils(object):
             return not obj.resolved
         elif _isinstance(obj, _type):
             return True
-        try:
-            return _type.__isinstance__(obj)
-        except AttributeError:
-            return False
+        # a class can widen what counts as its instance (EClassifier also
+        # accepts static classes and packages-as-modules): only the class that
+        # DEFINES the hook does, not its subclasses nor the instances of EClass
+        if _isinstance(_type, type):
+            hook = _type.__dict__.get('__isinstance__')
+            if hook is not None:
+                return hook.__func__(obj)
+        return False
 
     @staticmethod
     def get_root(obj):
